@@ -122,7 +122,7 @@ def lean_methodtable(mt):
     return "\n".join(L) + "\n"
 
 WF_LEAN = os.path.join(C.LEAN, "Gozod", "Gen", "WriterFacts.lean")
-WF_FIELDS = ["urlImport", "specialOptNonPtrOnly", "optionalOnEveryPtr", "timePtr", "sliceTyped", "mapKeyMatch", "recordTyped", "urlCtor", "ruleApplies", "boundArg", "extraRules"]
+WF_FIELDS = ["urlImport", "specialOptNonPtrOnly", "optionalOnEveryPtr", "timePtr", "sliceTyped", "mapKeyMatch", "recordTyped", "urlCtor", "ruleApplies", "boundArg", "extraRules", "jsonNumKinds"]
 
 def open_compile_classes():
     """classes <c> of the lines `open: property=C13 key=wcompile:notypecheck:<c>:*` of known-findings.txt"""
@@ -142,7 +142,8 @@ def lean_writerfacts(wf, open_classes):
          "def writerFacts : WriterFacts := {"]
     L += ["  %s := %s" % (f, b(wf[f])) for f in WF_FIELDS]
     L += ["}", "", "/-- analyzer.go: every name of `F, G string` gets its own key; a tag written as an interpreted string literal is read -/",
-          "def analyzerMultiName : Bool := %s" % b(wf["multiName"]), "def analyzerTagLiteral : Bool := %s" % b(wf["tagLiteral"]), "",
+          "def analyzerMultiName : Bool := %s" % b(wf["multiName"]), "def analyzerTagLiteral : Bool := %s" % b(wf["tagLiteral"]),
+          "def analyzerSkipTestFiles : Bool := %s" % b(wf["skipTestFiles"]), "",
           "/-- classes `<c>` of the lines `open: property=C13 key=wcompile:notypecheck:<c>:*` of known-findings.txt -/",
           "def openCompileClasses : List String := [%s]" % ", ".join(json.dumps(c) for c in open_classes), "", "end Gozod.Gen"]
     return "\n".join(L) + "\n"
@@ -341,6 +342,8 @@ def make_key(doc, reasons=None, unexplained=()):
             who = "gen-wrong" if r == d else "both-wrong"
             if probe == "nil" and fty.startswith("ptr_") and "required" in names and ("Optional" in emitted or "Nilable" in emitted):
                 return "gen-optional-on-required:fty=%s" % fty
+            if probe == "nil" and fty.startswith("ptr_") and g == "0" and r == "1" and "required" not in names and chain[0] == "gozod.UUID()" and "Optional" not in emitted and "Nilable" not in emitted:
+                return "gen-ptr-special-ctor-nil:fty=%s" % fty      # the UUID special case: .Optional() only for non-pointer fields
             dropped = [n for n in names if n != "required" and n not in emitted]
             if dropped:
                 return "gen-drops:rule=%s,fty=%s" % (dropped[0], fty)
